@@ -17,7 +17,7 @@
 import collections
 import struct
 
-from .common import BufferUnderflowError
+from .common import BufferUnderflowError, ProtocolError
 
 _NULL_SHORT_STRING = struct.pack(">h", -1)
 
@@ -34,6 +34,10 @@ def _buffer_underflow(what, buf, offset, size):
             available=len(buf) - offset,
         )
     )
+
+
+def _invalid_length(what, length, offset):
+    return ProtocolError("Invalid {what} length {length:,d} at offset {offset:,d}".format(what=what, length=length, offset=offset))
 
 
 def _coerce_topic(topic):
@@ -157,6 +161,10 @@ def read_short_bytes(data, cur):
     (strlen,) = struct.unpack(">h", data[cur : cur + 2])
     if strlen == -1:
         return None, cur + 2
+    if strlen < 0:
+        # Only -1 (null) is a valid negative length. Accepting others would
+        # move the cursor backwards.
+        raise _invalid_length("short string", strlen, cur)
 
     cur += 2
     if len(data) < cur + strlen:
@@ -183,6 +191,10 @@ def read_int_string(data, cur):
     (strlen,) = struct.unpack(">i", data[cur : cur + 4])
     if strlen == -1:
         return None, cur + 4
+    if strlen < 0:
+        # Only -1 (null) is a valid negative length. Accepting others would
+        # move the cursor backwards.
+        raise _invalid_length("long string", strlen, cur)
 
     cur += 4
     if len(data) < cur + strlen:
